@@ -235,7 +235,7 @@ def main(argv=None):
     # ---------------------------------------------------------------- sampled proof audit (A-ENGINE attack ii)
     # Units whose obligations were ALL proved are evaluated natively on the real code for a few pseudo-random +
     # boundary instances.  A native failure of a proved contract means the executor or a lowering is unsound:
-    # that is a checker crash (exit 3), never a pass and never a property violation.
+    # the failing input is reported as a violation with its replay file (see below).
     audit_units = []
     for (mod, uname), r in zip(jobs, results):
         meta = metas[uname]
@@ -251,9 +251,23 @@ def main(argv=None):
         n_audit = 6 if tier == "quick" else 60
         for (mod, un), (ne, fail) in zip(audit_units, runner.run_adjudications(audit_units, n_audit, seed + 1, a.procs or None)):
             audit_evals += ne
-            if fail is not None:
-                crashes.append((un, "PROOF AUDIT FAILED: every obligation of this unit was proved, yet the native run on the real code fails '%s' for model %s -- the executor/lowering is unsound here" % (
-                    fail.get("name", fail.get("error")), json.dumps(runner._model_json(fail.get("model")) if fail.get("model") else None)[:600])))
+            if fail is not None and "error" in fail:
+                crashes.append((un, "proof audit crashed: " + fail["error"]))
+            elif fail is not None:
+                # every obligation of the unit was proved, yet the contract fails natively on the real code for this
+                # input.  The proofs are modular (instruction execution is verified against the S-MEM contract object,
+                # caches against the policy contracts): a native failure means a callee no longer implements the
+                # contract it is assumed under -- or the executor is unsound.  Either way there is a failing input on
+                # the real code, which is what a violation is; it is reported with its replay file.
+                o = runner.Obligation(un, fail["name"], 0)
+                o.status, o.backend, o.model = "refuted", "native-audit", fail["model"]
+                o.reason = "all obligations of this unit are proved against the assumed contracts of its callees (S-MEM, policies), but the native run on the real code fails for this input: a callee breaks its assumed contract (or the executor is unsound)"
+                o.replay = {"confirmed": True, **fail["replay"]}
+                k = known_match(known, pid, un, o.name)
+                if k is not None:
+                    known_hits.append((k, "%s/%s" % (un, o.name)))
+                else:
+                    violations.append((mod, un, o))
 
     # ---------------------------------------------------------------- bounded stand-ins / extra native parts
     bounded_info = None
